@@ -33,6 +33,27 @@ CHECKS = {
     "C38": ("exploration", "proptest stateful scenario: two branches of one actor offered through every ingestion path; invariant after every step",
             "(actor, seq) uniqueness and contiguity, readability and save/load consistency after every delivery, whatever it returned.",
             "Which branch wins is not asserted.", "3/C38"),
+    "C07": ("exploration", "proptest histories; differential of every *_at read and fork_at against a fresh document fed exactly ancestors(h)",
+            "Historical reads (observation + extended read battery incl. ranges, values, hydrate, parents, iter, get_marks, cursors) on the merged document at recorded heads must equal plain reads on an independently built document holding exactly those ancestors; fork_at must produce that document.",
+            "F' built by one-by-one topological apply of the harness-computed ancestor set.", "3/C07"),
+    "C08": ("exploration", "proptest histories; metamorphic patch application: View(h1).apply(diff(h1,h2)) == View(h2) with an independent applier, cross-checked with hydrate::apply_patches",
+            "Forward, backward and sideways head pairs, whole document and diff_obj (recursive / shallow).",
+            "Marks are not part of the view. Objects for diff_obj are restricted to those reachable through winning values at both ends.", "3/C08, 2.6, B.2"),
+    "C09": ("exploration", "proptest stateful programs; a materialised view is kept equal to the document by applying incremental patches after every batch (AutoCommit diff cursor and explicit PatchLog styles)",
+            "All mutating paths: local edits, commit, rollback, apply_changes, merge, load_incremental, sync receive, load with patch log, isolate/integrate.",
+            "One PatchLog per operation batch (documented use). One known finding (silent conflict resolution by an equal put) excluded by signature.", "3/C09"),
+    "C28": ("exploration", "proptest histories + generated transactions rolled back; twin-document equality (state, heads, save bytes, stats, byte-identical follow-up change)",
+            "Manual transactions (plain, transaction_at, with active patch log) of valid and invalid edits by existing or brand-new actors.",
+            "Twin = clone taken before the transaction.", "3/C28"),
+    "C31": ("exploration", "proptest histories; anonymize run several times per case; harness-side change-graph/op isomorphism and per-heads shape comparison",
+            "Changes matched by (actor rank, seq); op shapes, key/mark-name bijections, object types, lengths, text widths, conflict structure at every recorded heads; reload is clean.",
+            "anonymize seeds itself from the OS: the oracle must hold for every seed. GraphemeCluster width loss is a known finding.", "3/C31"),
+    "C32": ("exploration", "proptest histories; AutoSerde serialized into a strict serde Serializer enforcing announced lengths + serde_json; compared with the winners-only ReadDoc image",
+            "Strict tree equals expected image; announced map/seq lengths are enforced; JSON output equals the strict tree.",
+            "serialize_seq(None) is legal serde and only counted.", "3/C32"),
+    "C33": ("exploration", "proptest recursive JSON generator; differential round-trip through the real automerge import/export subprocesses with kind-sensitive comparison",
+            "export(import(x)) == x for keys, arrays, strings, exact integers over i64/u64 and floats by value and kind.",
+            "CLI built from /repo's working tree into /verif/target-cli at start of each run.", "3/C33"),
 }
 
 PENDING = {}
@@ -62,7 +83,7 @@ def main():
             na.append({"property_id": i, "reason": PENDING.get(i, "check not built yet (work in progress; see DESIGN.md section 3 for the planned generated-input oracle)")})
     m = {
         "version": 1,
-        "setup_cmd": "cd /verif/harness && cargo build --offline --profile verif --bin amverif",
+        "setup_cmd": "cd /verif/harness && cargo build --offline --profile verif --bin amverif && (cd /repo/rust && CARGO_TARGET_DIR=/verif/target-cli cargo build --offline -p automerge-cli)",
         "hooks": {
             "guard": "--cfg automerge_verif",
             "enable": "RUSTFLAGS='--cfg automerge_verif' via /verif/harness/.cargo/config.toml (build.rustflags); /repo/rust/automerge is a path dependency of the harness",
